@@ -227,6 +227,11 @@ func VerifTypeAddr() (base, max, shift, rng uintptr) {
 	return typeAddr.BaseTypeAddr, typeAddr.MaxTypeAddr, typeAddr.AddrShift, typeAddr.AddrRange
 }
 
+var (
+	vcGeom    [4]uintptr
+	vcGeomSet bool
+)
+
 func verifCodeSet(typeptr uintptr, set *OpcodeSet, index int) {
 	if atomic.LoadInt32(&verifCacheArmed) == 0 || set == nil {
 		return
@@ -245,6 +250,17 @@ func verifCodeSet(typeptr uintptr, set *OpcodeSet, index int) {
 		return
 	}
 	vcStats.FastPath++
+	// the table was sized and filled with one geometry (base, max, shift, length): a lookup made
+	// with another one lands in slots that belong to other descriptors
+	if g := [4]uintptr{typeAddr.BaseTypeAddr, typeAddr.MaxTypeAddr, typeAddr.AddrShift, uintptr(len(cachedOpcodeSets))}; !vcGeomSet {
+		vcGeom, vcGeomSet = g, true
+	} else if g != vcGeom {
+		vcStats.SlotCollision++
+		if len(vcReports) < 16 {
+			vcReports = append(vcReports, fmt.Sprintf("cache geometry (base, max, shift, slots) changed after first use: %v -> %v", vcGeom, g))
+		}
+		vcGeom = g
+	}
 	// the address-indexed table is only for descriptors inside [BaseTypeAddr, MaxTypeAddr], and a
 	// descriptor's slot is a function of its whole address
 	if typeptr < typeAddr.BaseTypeAddr || typeptr > typeAddr.MaxTypeAddr || uintptr(index) != (typeptr-typeAddr.BaseTypeAddr)>>typeAddr.AddrShift {
